@@ -98,6 +98,8 @@ def same(a, b, what, exact=True, tol=1e-4, anchor_rounding=False):
 
 
 def run_case(kind, p):
+    if kind == "wide":
+        return wide_case(p)
     rng = np.random.default_rng(p["seed"])
     pattern = impl.pattern_from(p["pattern"])
     c = pattern.get_crop_size()
@@ -211,6 +213,47 @@ def run_case(kind, p):
     return msgs[:8]
 
 
+def wide_case(p):
+    """translation along a long axis through the batch helper of the full-frame method (its own output arrays), upsampling on:
+    detector-sized coordinates (> 1600 px) times the upsampling factor"""
+    import refimpl
+    from libertem_blobfinder.common import correlation as cc
+    rng = np.random.default_rng(p["seed"])
+    shape = tuple(p["shape"])
+    pattern = impl.pattern_from(p["pattern"])
+    frame = impl.noise_frame(rng, shape, "disks")
+    peaks = np.asarray(p["peaks"], dtype=np.int64)
+    t = np.asarray(p["t"])
+    us = p["upsample"]
+    msgs = []
+    try:
+        a = cc.process_frames_full(pattern, frame[np.newaxis], peaks, upsample=us)
+        b = cc.process_frames_full(pattern, np.roll(frame, tuple(t), axis=(0, 1))[np.newaxis], peaks + t, upsample=us)
+    except Exception as e:
+        return [f"process_frames_full raised {type(e).__name__}: {e}"]
+    a = tuple(np.asarray(x[0]) for x in a)
+    b = tuple(np.asarray(x[0]) for x in b)
+    mask_full = pattern.get_mask(shape)
+    logs = {}
+    for j in range(len(peaks)):
+        if np.any(a[0][j].astype(np.int64) != b[0][j].astype(np.int64) - t):
+            continue        # tied maxima are the subject of the other clauses
+        d = np.abs(a[1][j].astype(np.float64) - (b[1][j].astype(np.float64) - t))
+        if d.max() <= 1e-3:
+            continue
+        ok_both = True
+        for key, fr_, cen_, ref_ in (("a", frame, a[0][j], a[1][j]), ("b", np.roll(frame, tuple(t), axis=(0, 1)), b[0][j], b[1][j])):
+            if key not in logs:
+                f64 = fr_.astype(np.float64)
+                logs[key] = np.log(f64 - f64.min() + 1)
+            ok_both &= refimpl.is_half_spectrum_maximiser(mask_full, logs[key], np.asarray(cen_, dtype=float), int(us),
+                                                          np.asarray(ref_, dtype=float))
+        if not ok_both:
+            msgs.append(f"process_frames_full(upsample={us}) on a {shape} frame: peak {peaks[j].tolist()} translated by {t.tolist()}: "
+                        f"refined {a[1][j].tolist()} vs {(b[1][j] - t).tolist()} (translated back)")
+    return msgs[:4]
+
+
 def classify(kind, p, msgs):
     """known finding D15 seen through C14: with DFT upsampling on, the refined position is the maximiser of the modulus of the
     *half-spectrum* sum (rfft along the last axis), which is not the correlation; transposing the frame makes the other axis
@@ -268,3 +311,21 @@ def search(ctx, boost=1, focus=()):
         ctx.oracle_case("relations", p, msgs_, key=classify("relations", p, msgs_) if msgs_ else None,
                         nontrivial=(shape[0] != shape[1] or (p["t"][0] != 0 and p["t"][1] != 0)))
         ctx.count("oracle_" + p["frame_kind"])
+    for k in range(2 if ctx.tier == "quick" else 6):
+        pat = impl.pattern_params(rng, kinds=("circular", "background_subtraction", "radial_gradient"), rmin=2.0, rmax=4.0)
+        c = int(np.ceil(pat["search"]))
+        shape = [int(rng.integers(2 * c + 6, 2 * c + 24)), int(rng.integers(1700, 2100))]
+        if k % 2:
+            shape = shape[::-1]
+        long_ax = int(np.argmax(shape))
+        t = [0, 0]
+        t[long_ax] = int(rng.integers(60, 300))
+        t[1 - long_ax] = int(rng.integers(-2, 3))
+        npk = 5
+        peaks = np.zeros((npk, 2), dtype=int)
+        peaks[:, long_ax] = rng.integers(1300, shape[long_ax] - c - 300, npk)
+        peaks[:, 1 - long_ax] = rng.integers(c + 2, shape[1 - long_ax] - c - 2, npk)
+        p = {"seed": int(rng.integers(1 << 30)), "pattern": pat, "shape": shape, "peaks": peaks.tolist(), "t": t,
+             "upsample": int(rng.choice([20, 25, 40]))}
+        ctx.oracle_case("wide", p, run_case("wide", p), nontrivial=True)
+        ctx.count("oracle_wide")
